@@ -609,3 +609,19 @@ Proof.
       [lia|lia|intros i Hi; specialize (Hr i Hi); lia|intros i1 i2 Hi1 Hi2 E; apply Hinj; auto; lia].
   - intros Hmn. destruct (bphp_T2 m n (fun i => i - 1) Hn) as [a [Ha _]]; [|eauto]. split; intros; lia.
 Qed.
+
+(* ---------- bphp, documented domain (the repaired behaviour, D30) ---------- *)
+Theorem bphp_spec_sat_iff m n : 0 <= m -> 0 <= n ->
+  ((exists a, irs_hold a (bphp_spec_ir m n) = true) <-> m <= n).
+Proof.
+  intros Hm Hn. unfold bphp_spec_ir. destruct (Z.eqb_spec m 0) as [->|Hm0].
+  - split; [intros _; assumption|intros _; exists (fun _ => false); reflexivity].
+  - destruct (Z.eqb_spec n 0) as [->|Hn0].
+    + split; [intros [a Ha]; cbn in Ha; discriminate|lia].
+    + apply bphp_sat_iff; lia.
+Qed.
+Lemma bphp_spec_ok m n : 0 <= n -> irs_ok (bphp_spec_ir m n) = true.
+Proof.
+  intros Hn. unfold bphp_spec_ir. destruct (m =? 0); [reflexivity|]. destruct (Z.eqb_spec n 0); [reflexivity|].
+  apply bphp_ok. lia.
+Qed.
